@@ -296,6 +296,23 @@ M3 = model.Unit("m^3", "decltype(au::pow<3>(au::Meters{}))", model.d(L=3), {}, 0
 KM_M = model.Unit("km/m", "decltype(au::Kilo<au::Meters>{} / au::Meters{})", {}, model.mag_int(1000), 0, None, named=False)
 
 
+def round_fp(x, mant):
+    """x (Fraction, in the normal range) rounded to `mant` significant bits, ties to even."""
+    if x == 0:
+        return x
+    sgn, a = (1, x) if x > 0 else (-1, -x)
+    e = a.numerator.bit_length() - a.denominator.bit_length()
+    if Fr(2) ** e > a:
+        e -= 1                      # 2^e <= a < 2^(e+1)
+    ulp = Fr(2) ** (e - mant + 1)
+    q = a / ulp
+    n = q.numerator // q.denominator
+    rem = q - n
+    if rem > Fr(1, 2) or (rem == Fr(1, 2) and n % 2 == 1):
+        n += 1
+    return sgn * n * ulp
+
+
 def ipow_bases(r):
     """(C++ initializer list, python values) of the int_pow bases for rep r: every power -4..4 of every base is
     exactly representable in r (unsigned 32/64-bit: the raw arithmetic is modular)."""
@@ -492,7 +509,11 @@ def judge(m, o, viol, cnt):
                         want %= 2 ** BITS[r]
                     tol = 0
                 else:
-                    tol = 0 if kk >= 0 else abs(want) * (abs(kk) + 1) * Fr(1, 2 ** (MANT[r] - 1))
+                    # every |k|-th power of every base is exact in r, so the raw computation T{1} / (b * ... * b) rounds once:
+                    # the result must be the correctly rounded quotient (a power of the rounded reciprocal is not)
+                    tol = 0
+                    if kk < 0:
+                        want = round_fp(want, MANT[r])
                 if got is None or abs(got - want) > tol:
                     viol("ipow-value", "int_pow<%d>(%s) = %s, exact %s (allowed deviation %s)" % (kk, base, s, want, float(tol)), desc)
     elif k == "root":
@@ -583,7 +604,7 @@ def check(run):
                 "2^63, min, max, min/2, max/2 and their neighbours for integral reps; signed zeros, 1.1, 1/3, 2^24+1, 2^53+1, denormals, max, lowest, infinities, NaN for floating reps; "
                 "pairs whose raw operation is undefined -- zero divisor, MIN/-1, signed overflow in the common type, decided with __int128 -- are skipped and counted); "
                 "scalar/quantity, scalar/unblock_int_div(quantity) and quantity/unblock_int_div(scalar) on 5 units x rep pairs with the same alphabets; int_pow<-4..4> on bases "
-                "{3,-3,2,1.5,-0.5} (exact powers; negative exponents within (|k|+1) ulp of the exact quotient), sqrt/cbrt/1/q on all 11 reps with special values (bitwise equal to the std "
+                "{3,-3,2,1.5,-0.5} (exact powers; negative exponents: the correctly rounded quotient 1 / b^|k|, b^|k| being exact), sqrt/cbrt/1/q on all 11 reps with special values (bitwise equal to the std "
                 "function / raw operator), each on units that stay dimensioned, on units that are the unitless unit (Unos, Hz*s) and on units whose exponents collapse (m^2, m^3, rt-s, 1/s); "
                 "as_raw_number values against the model magnitude; all 65536 operand pairs of {int8_t,uint8_t}^2 on 6 unit pairs; integer-division, unblock_int_div and as_raw_number "
                 "accept/reject probes. distinct_nontrivial = min(#raw-number results, #Quantity results) + min(#accept, #reject probes).",
